@@ -128,6 +128,9 @@ func isFeltType(t types.Type) bool {
 	if pkg == nil {
 		return false
 	}
+	if strings.HasPrefix(n.Obj().Name(), "vx") {
+		return false // harness-declared limb containers are plain [4]uint64
+	}
 	p := pkg.Path()
 	return strings.HasSuffix(p, "/stark-curve/fp") || strings.HasPrefix(p, "github.com/NethermindEth/juno")
 }
@@ -275,28 +278,36 @@ func (in *Interp) rollback(mark int) {
 	in.journal = in.journal[:mark]
 }
 
-func getPath(v Value, path []int) Value {
+func (in *Interp) getPath(v Value, path []int) Value {
 	for _, i := range path {
 		a, ok := v.(*Agg)
 		if !ok {
-			panic(fmt.Sprintf("getPath: not an aggregate: %T", v))
+			if t, isT := v.(*Term); isT && t.w == 256 {
+				a = in.toRawLimbs(t).(*Agg) // limb access into an abstract field element (concrete only)
+			} else {
+				panic(fmt.Sprintf("getPath: not an aggregate: %T", v))
+			}
 		}
 		v = a.e[i]
 	}
 	return v
 }
 
-func setPath(v Value, path []int, nv Value) Value {
+func (in *Interp) setPath(v Value, path []int, nv Value) Value {
 	if len(path) == 0 {
 		return nv
 	}
 	a, ok := v.(*Agg)
 	if !ok {
-		panic(fmt.Sprintf("setPath: not an aggregate: %T", v))
+		if t, isT := v.(*Term); isT && t.w == 256 {
+			a = in.toRawLimbs(t).(*Agg)
+		} else {
+			panic(fmt.Sprintf("setPath: not an aggregate: %T", v))
+		}
 	}
 	na := &Agg{e: make([]Value, len(a.e))}
 	copy(na.e, a.e)
-	na.e[path[0]] = setPath(a.e[path[0]], path[1:], nv)
+	na.e[path[0]] = in.setPath(a.e[path[0]], path[1:], nv)
 	return na
 }
 
@@ -304,7 +315,7 @@ func (in *Interp) load(p Ptr) Value {
 	if p.obj == nil {
 		in.goPanic("nil pointer dereference")
 	}
-	v := getPath(p.obj.val, p.path)
+	v := in.getPath(p.obj.val, p.path)
 	if pz, ok := v.(Poison); ok && in.initMode == 0 {
 		in.unsupported("read of poisoned value (" + p.obj.label + "): " + pz.why)
 	}
@@ -318,7 +329,7 @@ func (in *Interp) store(p Ptr, v Value) {
 	if p.obj.frozen && in.freezeOn {
 		in.freezeViolation("store into frozen object " + p.obj.label)
 	}
-	in.setObj(p.obj, setPath(p.obj.val, p.path, v))
+	in.setObj(p.obj, in.setPath(p.obj.val, p.path, v))
 }
 
 func (p Ptr) field(i int) Ptr {
